@@ -431,7 +431,7 @@ Lemma prh_item_total ranges le item : forallb range_valid ranges = true ->
   exists o, prh_item (ranges, le) item = Ok o /\
             match o with Some (ranges', _) => forallb range_valid ranges' = true | None => True end.
 Proof.
-  intro Hv. unfold prh_item. set (it := py_strip item). destruct (mem DASH it) eqn:Ed; cbn [negb]; [|none_ok].
+  intro Hv. unfold prh_item, prh_guard_suffix_after_open, prh_guard_suffix_zero, prh_guard_order, prh_guard_empty. set (it := py_strip item). destruct (mem DASH it) eqn:Ed; cbn [negb]; [|none_ok].
   destruct (match it with c :: _ => c =? DASH | [] => false end).
   - destruct (le <? 0)%Z; [none_ok|]. destruct (plain_int it) as [b|e] eqn:Ep.
     + destruct (b =? 0)%Z; [none_ok|]. eexists. split; [reflexivity|]. cbv beta iota. rewrite forallb_app, Hv. reflexivity.
